@@ -107,7 +107,8 @@ fn rhs_for_slot(g: &mut Gen, kind: &SlotKind, ill: bool) -> Ex {
     }
     match kind {
         SlotKind::Free => alias_expr(g, 2),
-        SlotKind::StrByte => Ex::Str(g.rng.pick(&["a", "z", "Q", "0"]).to_string()),
+        // mostly one byte; sometimes one multi-byte character, two characters or none (refused)
+        SlotKind::StrByte => Ex::Str(g.rng.pick(&["a", "z", "Q", "0", "a", "z", "é", "λ", "ab", ""]).to_string()),
         SlotKind::VecElem => int(g.rng.range(0, 9)),
         SlotKind::ByteElem => int(g.rng.range(0, 255)),
     }
